@@ -99,15 +99,24 @@ theorem ref_is_defined (sel : List Term) (a : Option Str) (h : aliasSelected sel
   obtain ⟨h1, t, ht, e⟩ := h
   exact ⟨t, ht, e, h1⟩
 
-/-- Oracle and MSSQL never group by an alias, at any depth below them -/
-theorem fetch_family_no_groupby_alias (c : Ctx) (fl : QFlags) (ns : Bool) (h : fl.cls.fetchFamily = true) :
-    (queryCtx c fl ns).groupbyAlias = false := by
-  simp only [queryCtx, dialectCtx, h, if_true]
-  simp [setDefaults]
+/-- a top-level Oracle / MSSQL statement (nothing above it has decided) does not group by alias … -/
+theorem fetch_family_no_groupby_alias (c : Ctx) (fl : QFlags) (ns : Bool) (h : fl.cls.fetchFamily = true)
+    (hc : c.groupbyAliasSet = false) : (queryCtx c fl ns).groupbyAlias = false := by
+  simp [queryCtx, dialectCtx, h, hc, setDefaults]
 
-theorem groupby_alias_sticky (c : Ctx) (fl : QFlags) (ns : Bool) (h : c.groupbyAlias = false) :
-    (queryCtx c fl ns).groupbyAlias = false := by
+/-- … any other top-level statement does … -/
+theorem alias_family_groupby_alias (c : Ctx) (fl : QFlags) (ns : Bool) (h : fl.cls.fetchFamily = false)
+    (hc : c.groupbyAliasSet = false) : (queryCtx c fl ns).groupbyAlias = true := by
+  simp [queryCtx, dialectCtx, h, hc, setDefaults]
+
+/-- … and the decision of the outermost statement holds at every depth below it, whichever class built the nested
+    statement (in both directions) -/
+theorem groupby_alias_sticky (c : Ctx) (fl : QFlags) (ns : Bool) (h : c.groupbyAliasSet = true) :
+    (queryCtx c fl ns).groupbyAlias = c.groupbyAlias ∧ (queryCtx c fl ns).groupbyAliasSet = true := by
+  simp [queryCtx, dialectCtx, h, setDefaults]
+
+theorem groupby_alias_decided (c : Ctx) (fl : QFlags) (ns : Bool) : (queryCtx c fl ns).groupbyAliasSet = true := by
   simp only [queryCtx, dialectCtx]
-  split <;> simp [setDefaults, h]
+  split <;> simp_all [setDefaults]
 
 end Pypika.C13
